@@ -37,3 +37,14 @@ pub mod str_ax {
         ensures #[trigger] vstd::string::to_string_from_display_ensures::<String>(s, r) ==> r@ == s@;
 }
 broadcast use crate::str_ax::axiom_string_to_string;
+// E17 target: unwrap()/expect() where a panic is the specified refusal -- same value on Some / Ok, no
+// normal return otherwise (so the postcondition may say the input was Some / Ok)
+pub trait UnwrapOrRefuse<T>: Sized { fn unwrap_or_refuse(self) -> (r: T); }
+impl<T> UnwrapOrRefuse<T> for Option<T> {
+    #[verifier::external_body]
+    fn unwrap_or_refuse(self) -> (r: T) ensures self is Some, r == self->0 { unimplemented!() }
+}
+impl<T, E> UnwrapOrRefuse<T> for ::std::result::Result<T, E> {
+    #[verifier::external_body]
+    fn unwrap_or_refuse(self) -> (r: T) ensures self is Ok, r == self->Ok_0 { unimplemented!() }
+}
